@@ -43,12 +43,13 @@ func main() {
 }
 
 type keyInfo struct {
-	idx     int
-	name    string
-	s       *hw.Signer
-	ring    string
-	ref     string
-	armored string
+	generated bool // not one of the shipped test keys: hw.Signer's own signing path is not available
+	idx       int
+	name      string
+	s         *hw.Signer
+	ring      string
+	ref       string
+	armored   string
 }
 
 type ledger struct {
@@ -171,7 +172,7 @@ func (l liar) Fetch(ctx context.Context, br blob.Ref) (io.ReadCloser, uint32, er
 
 // signAs signs unsigned with key `by`; named is the camliSigner ref in unsigned.
 func (c *checker) signAs(by *keyInfo, named string, unsigned string, t time.Time) (string, error) {
-	if named == by.ref {
+	if named == by.ref && !by.generated {
 		return by.s.SignJSON(unsigned, t)
 	}
 	sr := &jsonsign.SignRequest{
@@ -749,6 +750,13 @@ func run(r *ev.Run) {
 		}
 	}
 
+	// ---- documents signed by a key generated by perkeep itself
+	if c.only == "" || strings.HasPrefix(c.only, "doc") {
+		gdir := ev.Scratch("c16-genkey")
+		defer os.RemoveAll(gdir)
+		c.generatedKeyDocs(gdir, years)
+	}
+
 	// ---- documents whose signature a foreign OpenPGP implementation made with another digest
 	// algorithm.  The property does not say that these verify (it speaks of what perkeep's signing
 	// yields); it says that IF one verifies, its payload and signature are ones the named key made,
@@ -800,6 +808,9 @@ func run(r *ev.Run) {
 
 	// ---- many callers signing at once through shared signing objects (rule 1 per caller)
 	c.concurrentSigning()
+
+	// ---- tampered claims handed to the consumers of verification (indexer, camli/sig/verify)
+	c.consumers()
 
 	// ---- mutants (rule 2), in parallel
 	type job func()
